@@ -21,7 +21,8 @@ ReportOK(o) == LET i == InfoOfObs(o)
                    /\ SeqSet(o.nocop) = NoCop(i)
                    /\ SeqSet(o.nolic) = NoLic(i)
 Lost(i, j) == \E f \in DOMAIN i : (i[f].cop /\ ~j[f].cop) \/ ~(i[f].lic \subseteq j[f].lic)
-Verdict(e) ==
+(* one clause per property family, each judged on its own; all failing ones are printed *)
+Clauses(e) ==
    LET c  == CmdOf(e)
        i  == InfoOfObs(e.pre)
        p  == SeqSet(e.pre.present)
@@ -29,29 +30,36 @@ Verdict(e) ==
        p2 == SeqSet(e.post.present)
        g  == e.pre.glob
        g2 == e.post.glob
-   IN  IF e.crash # "" THEN "crash"
-       ELSE IF c.kind = "convert-dep5" /\ e.exit # ExitOfG(c, i, p, g) THEN "C17.exit-status"
-       ELSE IF c.kind = "convert-dep5" /\ g2 # ApplyGlob(c, g) THEN "C17.declaration-not-moved-from-dep5-to-REUSE.toml"
-       ELSE IF c.kind = "convert-dep5" /\ (i2 # i \/ p2 # p) THEN "C17.attribution-changed-by-conversion"
-       ELSE IF c.kind # "convert-dep5" /\ g2 # g THEN "C15.command-moved-the-project-wide-declaration"
-       ELSE IF DOMAIN i2 # DOMAIN i THEN "C03.set-of-covered-files-changed-by-a-command"
-       ELSE IF ~ReportOK(e.post) THEN "C01.report-is-not-the-one-the-declarations-imply"
-       ELSE IF c.kind = "lint" /\ e.exit # ExitOf(c, i, p) THEN "C01.exit-status-is-not-the-verdict"
-       ELSE IF c.kind \in {"lint", "spdx"} /\ (i2 # i \/ p2 # p) THEN "C15.read-only-command-changed-what-the-project-declares"
-       ELSE IF c.kind = "spdx" /\ e.exit # 0 THEN "C18.spdx-failed-on-a-readable-project"
-       ELSE IF c.kind = "annotate" /\ Lost(i, i2) THEN "C09.previously-declared-information-dropped"
-       ELSE IF c.kind = "annotate" /\ (e.exit # 0 \/ i2 # ApplyInfo(c, i)) THEN "C07.read-back-differs-from-request"
-       ELSE IF c.kind = "annotate" /\ p2 # p THEN "C15.annotate-changed-LICENSES"
-       ELSE IF c.kind \in {"download", "download-all"} /\ i2 # i THEN "C15.download-changed-declarations"
-       ELSE IF c.kind \in {"download", "download-all"} /\ ~(p \subseteq p2) THEN "C19.existing-text-removed"
-       ELSE IF c.kind \in {"download", "download-all"} /\ p2 # ApplyPresent(c, i, p) THEN "C19.supplied-set-is-not-the-requested-or-missing-set"
-       ELSE IF c.kind \in {"download", "download-all"} /\ e.exit # ExitOf(c, i, p) THEN "C19.exit-status"
-       ELSE ""
+       same == DOMAIN i2 = DOMAIN i
+       dl == c.kind \in {"download", "download-all"}
+       c17 == IF c.kind # "convert-dep5" THEN ""
+              ELSE IF e.exit # ExitOfG(c, i, p, g) THEN "C17.exit-status"
+              ELSE IF g2 # ApplyGlob(c, g) THEN "C17.declaration-not-moved-from-dep5-to-REUSE.toml"
+              ELSE IF i2 # i \/ p2 # p THEN "C17.attribution-changed-by-conversion"
+              ELSE ""
+       c03 == IF ~same THEN "C03.set-of-covered-files-changed-by-a-command" ELSE ""
+       c01 == IF ~ReportOK(e.post) THEN "C01.report-is-not-the-one-the-declarations-imply"
+              ELSE IF c.kind = "lint" /\ e.exit # ExitOf(c, i, p) THEN "C01.exit-status-is-not-the-verdict"
+              ELSE ""
+       c15 == IF c.kind # "convert-dep5" /\ g2 # g THEN "C15.command-moved-the-project-wide-declaration"
+              ELSE IF c.kind \in {"lint", "spdx"} /\ (i2 # i \/ p2 # p) THEN "C15.read-only-command-changed-what-the-project-declares"
+              ELSE IF c.kind = "annotate" /\ p2 # p THEN "C15.annotate-changed-LICENSES"
+              ELSE IF dl /\ i2 # i THEN "C15.download-changed-declarations"
+              ELSE ""
+       c18 == IF c.kind = "spdx" /\ e.exit # 0 THEN "C18.spdx-failed-on-a-readable-project" ELSE ""
+       c09 == IF c.kind = "annotate" /\ same /\ Lost(i, i2) THEN "C09.previously-declared-information-dropped" ELSE ""
+       c07 == IF c.kind = "annotate" /\ same /\ (e.exit # 0 \/ i2 # ApplyInfo(c, i)) THEN "C07.read-back-differs-from-request" ELSE ""
+       c19 == IF ~dl THEN ""
+              ELSE IF ~(p \subseteq p2) THEN "C19.existing-text-removed"
+              ELSE IF p2 # ApplyPresent(c, i, p) THEN "C19.supplied-set-is-not-the-requested-or-missing-set"
+              ELSE IF e.exit # ExitOf(c, i, p) THEN "C19.exit-status"
+              ELSE ""
+   IN  IF e.crash # "" THEN {"crash"}
+       ELSE {x \in {c17, c03, c01, c15, c18, c09, c07, c19} : x # ""}
 KnownFinding(e, c) == ""
 TInit == l = 1 /\ info = <<>> /\ present = {} /\ hist = <<>> /\ start = <<>> /\ glob = "none"
 TNext == /\ l <= Len(Tr)
          /\ LET e == Tr[l]
-                c == Verdict(e)
-            IN  IF c = "" THEN TRUE ELSE PrintT(<<"REJECT", e.tid, e.k, c, KnownFinding(e, c), e.label>>)
+            IN  \A c \in Clauses(e) : PrintT(<<"REJECT", e.tid, e.k, c, KnownFinding(e, c), e.label>>)
          /\ l' = l + 1 /\ UNCHANGED vars
 =====================================================================================
